@@ -20,6 +20,7 @@ MUTATORS = ["add_constraint", "add_constraints", "refine_with_constraint", "refi
             "add_space_dimensions_and_embed", "add_space_dimensions_and_project", "remove_space_dimensions",
             "remove_higher_space_dimensions", "map_space_dimensions", "expand_space_dimension", "fold_space_dimensions",
             "topological_closure_assign", "upper_bound_assign_if_exact", "add_congruence", "refine_with_congruence",
+            "simplify_using_context_assign",
             "closure", "reduction", "incremental_closure", "obs_constraints", "obs_minimized_constraints", "obs_is_empty", "assign"]
 QUERIES = ["is_empty", "is_universe", "is_bounded", "contains", "strictly_contains", "is_disjoint_from", "equals",
            "relation_with_con", "relation_with_gen", "bounds_from_above", "bounds_from_below", "maximize", "minimize",
@@ -184,7 +185,7 @@ class G:
         if op == "add_constraints": return "%s %s" % (p, self.cons(kind, n, 1, 3))
         if op == "refine_with_constraints": return "%s %s" % (p, self.cons(kind, n, 1, 3, shaped=(r.random() < 0.5)))
         if op in ("add_congruence", "refine_with_congruence"): return "%s %s" % (p, self.cg(n))
-        if op in ("intersection_assign", "upper_bound_assign", "difference_assign", "time_elapse_assign", "upper_bound_assign_if_exact", "assign"):
+        if op in ("intersection_assign", "upper_bound_assign", "difference_assign", "time_elapse_assign", "upper_bound_assign_if_exact", "assign", "simplify_using_context_assign"):
             return "%s %d" % (p, r.choice(same))
         if op == "concatenate_assign":
             ys = [y for y in objs if objs[y][0] == kind and objs[y][1] + n <= self.maxdim + 1]
